@@ -11,13 +11,13 @@ HOOKS = {
 ENGINES = [
     {"name": "verus", "path": "/verif/contracts",
      "kind_free_text": "Verus 0.2026.09.13 (z3) on single-file units whose function bodies are cut mechanically from /repo by /verif/xtract (syn) on every run; contracts, loop invariants and proof hints spliced from contracts/*.vrs; faithfulness re-checked by inverting every logged rewrite; assert(false) canaries guard against vacuity",
-     "serves_properties": ["C01", "C02", "C03", "C04", "C05", "C06", "C07", "C08", "C09", "C10", "C11", "C12", "C13", "C14", "C16", "C17", "C19", "C20"]},
+     "serves_properties": ["C01", "C02", "C03", "C04", "C05", "C06", "C07", "C08", "C09", "C10", "C11", "C12", "C13", "C14", "C16", "C17", "C18", "C19", "C20"]},
     {"name": "kani", "path": "/verif/kani",
      "kind_free_text": "Kani 0.68 / CBMC 6.11 assume-assert contract harnesses over the unmodified crate (scratch copy), full-domain symbolic inputs, lazy buffers of symbolic length up to 2^40; counterexamples replayed natively",
-     "serves_properties": ["C01", "C02", "C04", "C05", "C06", "C07", "C08", "C09", "C11", "C13", "C14", "C15", "C17", "C20"]},
+     "serves_properties": ["C01", "C02", "C04", "C05", "C06", "C07", "C08", "C09", "C11", "C13", "C14", "C15", "C17", "C18", "C20"]},
     {"name": "native-bounded", "path": "/verif/native",
-     "kind_free_text": "bounded stand-ins: the real function run natively over a stated finite input set against an executable copy of the specification (labelled bounded, never counted as proved)",
-     "serves_properties": ["C01", "C05", "C20"]},
+     "kind_free_text": "bounded stand-in for packet() (n1_packet) and the witness search w_server: the real code run natively over a stated finite input set against an executable copy of the specification (labelled bounded, never counted as proved; the witness search only runs when a proof leg fails or is undecided, and in the thorough tier)",
+     "serves_properties": ["C01", "C02", "C03", "C04", "C05", "C06", "C07", "C08", "C09", "C10", "C11", "C12", "C13", "C14", "C16", "C17", "C19", "C20"]},
 ]
 
 NOTES = ("Contract-based deductive verification of the real code. ./check <id> exits 0 (all obligations discharged; KNOWN-FINDING lines allowed), "
@@ -66,10 +66,10 @@ CLAIMS = {
     },
     "C06": {
         "engine": "verus+kani",
-        "technique": K + " (mysql_common write_lenenc_int/str for all u64 / all lengths; byte-string and Option text encoders) + " + V + " (RowWriter text rows = concatenation of the cells' encodings, one packet per row)",
+        "technique": K + " (mysql_common write_lenenc_int/str for all u64 / all lengths; byte-string and Option text encoders) + " + V + " (RowWriter text rows = concatenation of the cells' encodings, one packet per row; date/datetime/duration text encoders with interpreted format literals)",
         "design_ref": "DESIGN.md section 6 C06",
         "text": "Proved: length-encoded integers and strings are written exactly per protocol for every value/length; [u8]/Vec/&T text encoding == lenenc_str(bytes); None == 0xFB and never collides with a string's first byte; in text mode each write_col appends exactly the value's encoding and end_row ends exactly one packet holding the row.",
-        "note": "PARTIAL: the text encoders that go through std formatting (integers, floats, dates, durations: format!(\"{}\")) are NOT under contract (std Display cannot be executed by CBMC nor read by Verus); str/String forwarding is bounded (<= 3 bytes). These are assumptions of this claim.",
+        "note": "PARTIAL: the integer and float text encoders (macro-generated `format!(\"{}\", self)`) are NOT under contract (rule R10 not implemented; std Display is neither executable by CBMC nor readable by Verus). Date/datetime/duration text encoders ARE verified (U6) with the format literals interpreted into dec/dec_pad terms; std Display for integers (canonical decimal, zero padding) is assumed. str/String/Vec forwarding is bounded (2 bytes). myc::Value text dispatch not under contract.",
     },
     "C07": {
         "engine": "verus+kani",
@@ -148,6 +148,13 @@ CLAIMS = {
         "text": "SEND_LONG_DATA appends the chunk to (stmt, param) and changes nothing else, writes nothing, calls nothing; after on_execute returns Ok the statement's long data is empty and other statements are untouched; a parameter with pending long data is delivered as those bytes without consuming the inline stream.",
         "note": "Same HashMap assumptions as C10.",
     },
+    "C18": {
+        "engine": "verus+kani",
+        "technique": V + " (switch_to_tls hands exactly the unparsed tail to the TLS layer and resets the buffer; init upgrades only when nothing is buffered or unflushed, refuses CLIENT_SSL without a config before after_authentication) + Kani bounded harnesses on PrependedReader / SwitchableConn",
+        "design_ref": "DESIGN.md section 6 C18",
+        "text": "PARTIAL CLAIM (the library's own side of the hand-over): switch_to_tls passes bytes[len-remaining..] -- whatever the chunking left unparsed -- so that the TLS layer's input stream is exactly pending (no byte skipped, none parsed twice); at the switch the writer is quiescent (no plaintext buffered or unflushed); the second handshake's user name reaches after_authentication; PrependedReader delivers prepended ++ socket bytes in order, each once, under every read chunking (bounded), writes/flushes go to the socket only.",
+        "note": "TRUSTED and outside any contract on this crate: rustls (record layer, handshake, 'nothing in plaintext after the switch' at the level of record contents, peer certificates), std::io::Chain/Cursor. K7 is bounded (prepended <= 3, socket <= 3 bytes, 5 reads). The Tls variant of SwitchableConn cannot be constructed inside CBMC.",
+    },
     "C19": {
         "engine": "verus",
         "technique": V + ": every Transport operation may return Err (fault at every operation index); error propagation and no-panic obligations of all units; callbacks require !faulted",
@@ -164,6 +171,4 @@ CLAIMS = {
     },
 }
 
-NOT_APPLICABLE = {
-    "C18": "check not built yet in this session: the library-side hand-over obligations (U1 switch_to_tls, U5 init order) are verified as part of U1/U5 but the PrependedReader/SwitchableConn routing (K7) is not; rustls itself would be trusted in any case (DESIGN.md section 6 C18)",
-}
+NOT_APPLICABLE = {}
